@@ -116,6 +116,14 @@ Theorem C14_first_occurrences : forall (A : Type) (eqb : A -> A -> bool), (foral
 Proof. exact @first_occs_spec. Qed.
 Print Assumptions C14_first_occurrences.
 
+(* the same, by recursion from the right, for any equals: the last element is kept iff no
+   element before it is equal to it *)
+Theorem C14_first_occurrences_snoc : forall (A : Type) (eqf : A -> A -> bool) (l : list A) (x : A),
+  first_occs eqf [] = [] /\
+  first_occs eqf (l ++ [x]) = first_occs eqf l ++ (if existsb (fun u => eqf u x) l then [] else [x]).
+Proof. exact @first_occs_snoc. Qed.
+Print Assumptions C14_first_occurrences_snoc.
+
 (* for a transitive equals (every equivalence): kept iff no element before it in the input is equal to it *)
 Theorem C14_distinct_func : forall (A : Type) (l : list A) (equals : A -> A -> bool),
   (forall x y z, equals x y = true -> equals y z = true -> equals x z = true) ->
@@ -229,6 +237,14 @@ Theorem C14_trim_segment : forall (A : Type) (p : A -> bool) (l : list A),
     (forall r x, trim_ref p l = r ++ [x] -> p x = false).
 Proof. exact @trim_ref_spec. Qed.
 Print Assumptions C14_trim_segment.
+
+(* ... and that description determines the result *)
+Theorem C14_trim_segment_unique : forall (A : Type) (p : A -> bool) (l pre r suf : list A),
+  l = pre ++ r ++ suf -> forallb p pre = true -> forallb p suf = true ->
+  (forall x r', r = x :: r' -> p x = false) -> (forall r' x, r = r' ++ [x] -> p x = false) ->
+  r = trim_ref p l.
+Proof. exact @trim_segment_unique. Qed.
+Print Assumptions C14_trim_segment_unique.
 
 (* ---- TryGet, SafeGet, SafeGetOr, Last ---- *)
 
